@@ -349,8 +349,21 @@ def rule_r4(chk, p, t):
         loops = [n for n in walk_no_nested(fn.node) if isinstance(n, ast.For) and isinstance(n.iter, ast.Call) and n.iter in rng]
         require(len(loops) == 1, "propagateTo has no single `for _ in range(...)` loop", fn.node)
         lp = loops[0]
-        require(len(lp.iter.args) == 1, "range() has a start/step argument", lp)
-        arg = lp.iter.args[0]
+        rargs = lp.iter.args
+        require(len(rargs) in (1, 2), "range() has a step argument", lp)
+        if len(rargs) == 1:
+            arg = rargs[0]
+        else:
+            # range(k, N + k) runs N times
+            k, stop = rargs
+            if isinstance(k, ast.Constant) and k.value == 0:
+                arg = stop
+            elif isinstance(k, ast.Constant) and isinstance(stop, ast.BinOp) and isinstance(stop.op, ast.Add) and isinstance(stop.right, ast.Constant) and stop.right.value == k.value:
+                arg = stop.left
+            elif isinstance(k, ast.Constant) and isinstance(stop, ast.BinOp) and isinstance(stop.op, ast.Add) and isinstance(stop.left, ast.Constant) and stop.left.value == k.value:
+                arg = stop.right
+            else:
+                raise Undecided(f"cannot read the iteration count of `{unparse(lp.iter)}`", lp)
         e = inline_locals(fn, arg)
         cons = fn.qualname + ":step-count"
         if not (isinstance(e, ast.Call) and call_name(e) in ("int", "floor") and len(e.args) == 1):
@@ -467,7 +480,7 @@ def run(chk, p, t):
         "algorithm over 1901-2099 (float arithmetic)."
     )
     chk.assumptions += ["round/around/rint round to nearest; int/floor/trunc truncate; timedelta normalises (carries) seconds"]
-    for fn in (rule_r1, rule_r2, rule_r3, rule_r4):
+    for fn in (rule_r1, rule_r2, rule_r3, rule_r4, rule_r5):
         rid = "C05.R" + fn.__name__[-1]
         if not chk.wants(rid):
             continue
@@ -479,3 +492,168 @@ def run(chk, p, t):
 
 
 _ = dotted_name
+
+
+def generation_mix(fn, var):
+    """Path-sensitive check that no expression combines values derived from two different values of
+    the local ``var`` (each assignment to ``var`` opens a new generation).  Returns a list of
+    (statement, {name: generations}) for mixing statements."""
+    from rsa.cfg import cfg_of
+
+    cfg = cfg_of(fn)
+    bad = {}
+    n_paths = 0
+    for path in cfg.paths(targets=[cfg.exit.id]):
+        n_paths += 1
+        gen = 0
+        deps = {var: frozenset({0})} if var in fn.all_params else {}
+        for nid, _lab in path:
+            node = cfg.nodes[nid]
+            a = node.ast
+            if a is None or node.kind not in ("stmt", "return"):
+                continue
+            tgts = []
+            val = None
+            if isinstance(a, ast.Assign):
+                tgts, val = a.targets, a.value
+            elif isinstance(a, ast.AugAssign):
+                tgts, val = [a.target], a.value
+            elif isinstance(a, ast.Return) and a.value is not None:
+                val = a.value
+            if val is None:
+                continue
+            reads = {x.id: deps[x.id] for x in ast.walk(val) if isinstance(x, ast.Name) and x.id in deps}
+            if isinstance(a, ast.AugAssign) and isinstance(a.target, ast.Name) and a.target.id in deps:
+                reads[a.target.id] = deps[a.target.id]
+            allg = frozenset().union(*reads.values()) if reads else frozenset()
+            names = []
+            for tg in tgts:
+                for x in ast.walk(tg):
+                    if isinstance(x, ast.Name):
+                        names.append(x.id)
+            if var in names:
+                gen += 1
+                deps[var] = frozenset({gen})
+                names = [x for x in names if x != var]
+            elif len(allg) > 1:
+                bad[id(a)] = (a, {k: sorted(v) for k, v in reads.items()})
+            for nm in names:
+                deps[nm] = allg
+    return list(bad.values()), n_paths
+
+
+def rule_r5(chk, p, t):
+    r = chk.rule(
+        "C05.R5",
+        "calendar quantities follow the corrected year",
+        2,
+        "in the Julian date <-> calendar algorithms, once the year (or the day count) is corrected every quantity "
+        "derived from it is re-derived before it is combined with the corrected value (no expression mixes values of "
+        "two generations of the corrected local); the leap rule and the epoch constants are the algorithm's",
+        "exactness of Vallado's Algorithm 14 as numbers",
+    )
+    gc = p.func("resonaate.physics.time.stardate.getCalendarDate")
+
+    def one():
+        mixes, n = generation_mix(gc, "year")
+        r.paths_enumerated += n
+        if mixes:
+            st, reads = mixes[0]
+            r.violation(
+                gc.qualname,
+                f"stale-derived-value:{unparse(st)[:60]}",
+                f"`{unparse(st)[:100]}` combines values derived from different values of `year` ({reads}): after the beginning-of-year correction `year -= 1` a quantity computed from the old year is reused (e.g. the leap-day count), so 31 December of a leap year decodes one day early",
+                gc.loc(st),
+            )
+        else:
+            r.ok(gc.qualname + ":generations", f"{n} paths: every expression uses quantities of one value of `year`", gc.loc())
+        defs = {}
+        for nn in walk_no_nested(gc.node):
+            if isinstance(nn, ast.Assign) and isinstance(nn.targets[0], ast.Name):
+                defs.setdefault(nn.targets[0].id, []).append(nn.value)
+        from rsa.terms import canon as _c
+
+        exp = {
+            "temp_val": ["float(julian_date) - 2415019.5"],
+            "temp_u": ["temp_val / 365.25"],
+            "year": ["1900 + floor(temp_u)"],
+            "leap_years": ["floor((year - 1901) * 0.25)"],
+            "day_of_year": ["temp_val - ((year - 1900) * 365 + leap_years)"],
+        }
+        bad = []
+        for k, srcs in exp.items():
+            got = {repr(_c(v)) for v in defs.get(k, [])}
+            want = {repr(_c(ast.parse(s, mode="eval").body)) for s in srcs}
+            if got != want:
+                bad.append(f"{k} = {[unparse(v) for v in defs.get(k, [])]}")
+        conds = [unparse(nn.test) for nn in walk_no_nested(gc.node) if isinstance(nn, ast.If)]
+        if conds != ["day_of_year < 1.0"]:
+            bad.append(f"correction condition {conds}")
+        if bad:
+            r.violation(gc.qualname + ":algorithm", "calendar-algorithm:" + ";".join(bad), "getCalendarDate deviates from the cited algorithm: " + "; ".join(bad), gc.loc())
+        else:
+            r.ok(gc.qualname + ":algorithm", "days since 1900, year, leap days, day of year; corrected when day_of_year < 1", gc.loc())
+
+    r.guard(gc.qualname, one)
+    gj = p.func("JulianDate.getJulianDate")
+
+    def two():
+        from rsa.terms import canon as _c
+
+        defs = {}
+        for nn in walk_no_nested(gj.node):
+            if isinstance(nn, ast.Assign) and isinstance(nn.targets[0], ast.Name):
+                defs.setdefault(nn.targets[0].id, []).append(nn.value)
+        exp = {
+            "m_day": "day + 1721013.5",
+            "julian_day_fraction": "(second + minute * 60 + hour * 3600) / 86400",
+        }
+        bad = []
+        for k, s in exp.items():
+            v = defs.get(k, [])
+            if not v or _c(v[0]) != _c(ast.parse(s, mode="eval").body):
+                bad.append(f"{k} = {[unparse(x) for x in v][:1]}")
+        jd = defs.get("julian_day", [])
+        want = _c(ast.parse("367 * year - floor(7 * (year + floor((month + 9) / 12)) * 0.25) + floor(275 * month / 9) + m_day", mode="eval").body)
+        if not jd or _c(jd[0]) != want:
+            bad.append(f"julian_day = {[unparse(x) for x in jd][:1]}")
+        rets = [nn for nn in walk_no_nested(gj.node) if isinstance(nn, ast.Return)]
+        if not rets or unparse(rets[-1].value) != f"{gj.params[0]}(julian_day + julian_day_fraction)":
+            bad.append("result is not julian_day + julian_day_fraction")
+        if bad:
+            r.violation(gj.qualname, "julian-date-algorithm:" + ";".join(bad), "getJulianDate deviates from Vallado's Algorithm 14: " + "; ".join(bad), gj.loc())
+        else:
+            r.ok(gj.qualname, "367 y - floor(7 (y + floor((m + 9)/12))/4) + floor(275 m/9) + d + 1721013.5 + day fraction", gj.loc())
+
+    r.guard(gj.qualname, two)
+    dm = p.func("resonaate.physics.time.stardate.days2mdh")
+
+    def three():
+        from rsa.terms import canon as _c
+
+        defs = {}
+        for nn in walk_no_nested(dm.node):
+            if isinstance(nn, ast.Assign) and isinstance(nn.targets[0], ast.Name):
+                defs.setdefault(nn.targets[0].id, []).append(nn.value)
+        exp = {
+            "hour_remainder": "(day_of_year - day_of_year_int) * 24",
+            "hour": "floor(hour_remainder)",
+            "minute_remainder": "(hour_remainder - hour) * 60",
+            "minute": "floor(minute_remainder)",
+            "second": "(minute_remainder - minute) * 60",
+            "day": "day_of_year_int - int_temp",
+            "day_of_year_int": "floor(day_of_year)",
+        }
+        bad = [f"{k} = {[unparse(x) for x in defs.get(k, [])][:1]}" for k, s in exp.items() if not defs.get(k) or _c(defs[k][0]) != _c(ast.parse(s, mode="eval").body)]
+        ws = [nn for nn in walk_no_nested(dm.node) if isinstance(nn, ast.While)]
+        if not (ws and unparse(ws[0].test) == "(day_of_year_int > int_temp + days_in_month[item - 1]) & (item < 12)"):
+            bad.append(f"month loop `{unparse(ws[0].test) if ws else None}`")
+        rets = [nn for nn in walk_no_nested(dm.node) if isinstance(nn, ast.Return)]
+        if not rets or unparse(rets[-1].value) not in ("(month, day, hour, minute, second)", "month, day, hour, minute, second"):
+            bad.append("returned tuple order")
+        if bad:
+            r.violation(dm.qualname, "days2mdh:" + ";".join(bad), "days2mdh deviates from the cited algorithm: " + "; ".join(bad), dm.loc())
+        else:
+            r.ok(dm.qualname, "month by cumulative month lengths; hour / minute / second by successive remainders", dm.loc())
+
+    r.guard(dm.qualname, three)
